@@ -120,8 +120,9 @@ def create_signal(signal, node_list, type_enums):
 def dump(dbs, f, **_options):
     # type: (typing.Mapping[str, canmatrix.CanMatrix], typing.IO, **typing.Any) -> None
     signal_type_enums = {}
-    # building the cluster merges senders/receivers of equal-named frames: do that on a copy
-    cluster = canmatrix.cancluster.CanCluster(copy.deepcopy(dbs))
+    # (no CanCluster here: building one merges the senders of equal-named frames and the receivers of equal-named
+    # signals, also of signals that only share their name with a signal of another frame)
+    cluster = dbs
     for name in cluster:  # type: str
         db = cluster[name]  # type: canmatrix.CanMatrix
         for (typename, define) in list(db.signal_defines.items()):
@@ -150,11 +151,14 @@ def dump(dbs, f, **_options):
     # Nodes:
     element_id = 1
     node_list = {}  # type: typing.MutableMapping[str, int]
-    for ecu in cluster.ecus:
-        node = lxml.etree.Element('Node', name=ecu.name, id="%d" % element_id)
-        root.append(node)
-        node_list[ecu.name] = element_id
-        element_id += 1
+    for name in cluster:
+        for ecu in cluster[name].ecus:
+            if ecu.name in node_list:
+                continue
+            node = lxml.etree.Element('Node', name=ecu.name, id="%d" % element_id)
+            root.append(node)
+            node_list[ecu.name] = element_id
+            element_id += 1
     for name in cluster:
         db = cluster[name]
         # Bus
